@@ -179,6 +179,9 @@ Definition new_id (i : str) : option str := if id_ok i then Some i else None.
 Definition parse_node (s : str) : outcome node :=
   let raw := trim_space s in
   let n := zlen raw in
+  match raw with
+  | [] => Err                                   (* F1: empty input *)
+  | _ =>
   idx S_node_raw0 (at_index raw 0) (fun c =>
   if Byte.eqb c c_slash then
     match index s_lt raw with
@@ -198,12 +201,15 @@ Definition parse_node (s : str) : outcome node :=
         end)
     end
   else if Byte.eqb c c_under then
+    if (n <? 2)%Z then Err                      (* F1: lone underscore *)
+    else
     idx S_node_blank (slice raw 2 n) (fun ids =>
     match new_id ids with
     | None => Err
     | Some id => Ok (mkNode s_blank_type id)
     end)
-  else Err).
+  else Err)
+  end.
 
 (* predicate.Parse *)
 Definition parse_pred (s : str) : outcome pred :=
@@ -213,25 +219,32 @@ Definition parse_pred (s : str) : outcome pred :=
   | [] => Err
   | c :: _ =>
       if negb (Byte.eqb c c_quote) then Err
-      else match index s_anchor raw with
+      else match last_index s_anchor raw with       (* F2: strings.LastIndex *)
            | None => Err
            | Some i =>
+               if (n <? Z.of_nat i + 4)%Z then Err  (* F2: no room for the closing bracket *)
+               else
                idx S_pred_id (slice raw 0 (Z.of_nat i + 1)) (fun idq =>
                idx S_pred_ta (slice raw (Z.of_nat i + 3) (n - 1)) (fun ta =>
                match o_unquote O idq with
                | None => Err
+               | Some [] => Err                      (* F2b: empty ID *)
                | Some id =>
                    match ta with
                    | [] => Ok (mkPred id None)
                    | _ =>
                        idx S_pred_ta0 (at_index ta 0) (fun c0 =>
                        let ta1 := if Byte.eqb c0 c_quote then skipn 1 ta else ta in
-                       idx S_pred_talast (at_index ta1 (zlen ta1 - 1)) (fun cl =>
-                       let ta2 := if Byte.eqb cl c_quote then firstn (List.length ta1 - 1) ta1 else ta1 in
-                       match o_parse_time O ta2 with
-                       | None => Err
-                       | Some t => Ok (mkPred id (Some t))
-                       end))
+                       let k := fun ta2 => match o_parse_time O ta2 with
+                                           | None => Err
+                                           | Some t => Ok (mkPred id (Some t))
+                                           end in
+                       match ta1 with
+                       | [] => k ta1                  (* F2: len(ta) > 0 && ... *)
+                       | _ =>
+                           idx S_pred_talast (at_index ta1 (zlen ta1 - 1)) (fun cl =>
+                           k (if Byte.eqb cl c_quote then firstn (List.length ta1 - 1) ta1 else ta1))
+                       end)
                    end
                end))
            end
@@ -249,6 +262,12 @@ Fixpoint parse_blob_items (ps : list str) : option str :=
               end
   end.
 
+(* len(v) < 2 || v[0] != '[' || v[len(v)-1] != ']' *)
+Definition blob_unbracketed (v : str) : bool :=
+  (zlen v <? 2)%Z
+  || match v with c :: _ => negb (Byte.eqb c x5b) | [] => true end
+  || match last_byte v with Some c => negb (Byte.eqb c x5d) | None => true end.
+
 (* literal.DefaultBuilder().Parse *)
 Definition parse_literal (s : str) : outcome literal :=
   let raw := trim_space s in
@@ -257,8 +276,9 @@ Definition parse_literal (s : str) : outcome literal :=
   | [] => Err
   | c :: _ =>
       if negb (Byte.eqb c c_quote) then Err
-      else match index s_typem raw with
+      else match last_index s_typem raw with        (* F3: strings.LastIndex *)
            | None => Err
+           | Some 0%nat => Err                       (* F3: idx < 1 *)
            | Some i =>
                idx S_lit_v (slice raw 1 (Z.of_nat i)) (fun v =>
                idx S_lit_t (slice raw (Z.of_nat i + 8) n) (fun t =>
@@ -270,6 +290,8 @@ Definition parse_literal (s : str) : outcome literal :=
                  match o_parse_float O v with Some b => Ok (LFloat b) | None => Err end
                else if str_eqb t s_text then Ok (LText v)
                else if str_eqb t s_blob then
+                 if blob_unbracketed v then Err      (* F3: length and brackets *)
+                 else
                  idx S_lit_blob (slice v 1 (zlen v - 1)) (fun values =>
                  match values with
                  | [] => Ok (LBlob [])
@@ -278,7 +300,7 @@ Definition parse_literal (s : str) : outcome literal :=
                         | None => Err
                         end
                  end)
-               else NilNil))
+               else Err))                            (* F3: unknown type *)
            end
   end.
 
@@ -305,8 +327,15 @@ Definition parse_object (s : str) : outcome object :=
 Definition parse_triple (line : str) : outcome triple :=
   let raw := trim_space line in
   let n := zlen raw in
-  match p_split raw, o_split_from raw 0 with
-  | Some (ps, pe), Some (os, oe) =>
+  match p_split raw with
+  | None => Err
+  | Some (ps, pe) =>
+  (* F4: the object split is searched from the beginning of the predicate *)
+  let pstart := (pe - 1)%nat in
+  idx S_triple_sp (slice raw (Z.of_nat pstart) n) (fun rest =>
+  match o_split_from rest pstart with
+  | None => Err
+  | Some (os, oe) =>
       idx S_triple_ss (slice raw 0 (Z.of_nat ps + 1)) (fun ss =>
       idx S_triple_sp (slice raw (Z.of_nat pe - 1) (Z.of_nat os + 1)) (fun sp =>
       idx S_triple_so (slice raw (Z.of_nat oe - 1) n) (fun so =>
@@ -325,7 +354,7 @@ Definition parse_triple (line : str) : outcome triple :=
       | Panic p => Panic p
       | _ => Err
       end)))
-  | _, _ => Err
+  end)
   end.
 
 End WithOracles.
